@@ -80,7 +80,33 @@ fn cut_case(tier: Tier) -> BoxedStrategy<FileSpec> {
                 src,
             })
         });
-    prop_oneof![2 => near, 2 => gen::file_spec(tier), 1 => (super::c03::deep_conf(), gen::deep_small_src(60)).prop_map(|(conf, src)| FileSpec { conf, src })].boxed()
+    // block sizes of several MiB (lengths framed in 4 bytes), one to three entries aimed at B - 20 .. B + 1
+    let near_big = (
+        prop_oneof![2 => (1usize << 21)..(1usize << 21) + 4096, 2 => 2_100_000usize..4_300_000, 1 => 1_000_000usize..2_097_152],
+        prop::sample::select(vec![1usize, 8]),
+        0u8..=2,
+        vec((prop::sample::select(vec![40i64, 20, 14, 13, 12, 11, 1, 0, -1]), -3i64..=3, 0u8..3), 1..=3),
+    )
+        .prop_map(|(bs, iv, levels, shapes)| {
+            let list = shapes
+                .iter()
+                .enumerate()
+                .map(|(i, (back, d, klen))| {
+                    let key = vec![b'a' + i as u8; 1 + *klen as usize];
+                    // total entry = varint(klen) + varint(vlen) + key + value; aim the block estimate at B - back + d
+                    let n = (bs as i64 - back + d - key.len() as i64 - 5 - 12).max(0) as u32;
+                    (Blob::Lit(key), Blob::Pad { fill: 0x11 + i as u8, n, tail: vec![] })
+                })
+                .collect();
+            FileSpec { conf: WConf { codec: Codec::None, level: 0, block_size: Some(bs), interval: Some(iv), levels }, src: EntrySrc::List(list) }
+        });
+    prop_oneof![
+        40 => near,
+        40 => gen::file_spec(tier),
+        20 => (super::c03::deep_conf(), gen::deep_small_src(60)).prop_map(|(conf, src)| FileSpec { conf, src }),
+        1 => near_big,
+    ]
+    .boxed()
 }
 
 impl Prop for C15 {
